@@ -322,6 +322,38 @@ fn vm_compare(real: &VectorMap<usize, u32>, model: &BTreeMap<usize, u32>, univer
     if real.is_empty() != model.is_empty() {
         return Some(format!("is_empty: real {} model {}", real.is_empty(), model.is_empty()));
     }
+    // the rest of the public API
+    // (max_key_index() and capacity() are deliberately not compared: the property speaks of contents, presence and
+    // length. max_key_index() does report the backing vector's last index rather than the largest stored key after
+    // the largest key has been removed - noted in DESIGN.md as an observation outside the property.)
+    let mut c = real.clone();
+    for k in 0..universe + 2 {
+        let gm = c.get_mut(&k).map(|v| *v);
+        if gm != model.get(&k).copied() {
+            return Some(format!("get_mut({k}): real {gm:?} model {:?}", model.get(&k)));
+        }
+    }
+    let im: Vec<(usize, u32)> = c.iter_mut().map(|(k, v)| (k, *v)).collect();
+    if im != mt {
+        return Some(format!("iter_mut: real {im:?} model {mt:?}"));
+    }
+    // writes through get_mut / iter_mut land in the right entries
+    for (k, v) in c.iter_mut() {
+        *v = v.wrapping_add(1000 + k as u32);
+    }
+    for (k, v) in model {
+        if c.get(k) != Some(&v.wrapping_add(1000 + *k as u32)) {
+            return Some(format!("iter_mut write: entry {k} holds {:?}", c.get(k)));
+        }
+    }
+    let ii: Vec<usize> = real.clone().into_indices().collect();
+    if ii != model.keys().copied().collect::<Vec<_>>() {
+        return Some(format!("into_indices: real {ii:?}"));
+    }
+    let iv: Vec<u32> = real.clone().into_values().collect();
+    if iv != model.values().copied().collect::<Vec<_>>() {
+        return Some(format!("into_values: real {iv:?}"));
+    }
     None
 }
 
@@ -524,7 +556,11 @@ pub fn handle(req: &J) -> J {
             }
         }
         ("vmap", "exhaustive") => {
-            let real: VectorMap<usize, u32> = VectorMap::new();
+            let cap = req.get("capacity").and_then(J::as_u64);
+            let real: VectorMap<usize, u32> = match cap {
+                Some(c) => VectorMap::with_capacity(c as usize),
+                None => VectorMap::new(),
+            };
             let model = BTreeMap::new();
             let mut history = Vec::new();
             vm_dfs(&real, &model, &mut history, universe, len, 1, &mut stats);
@@ -532,8 +568,13 @@ pub fn handle(req: &J) -> J {
         ("vmap", "random") => {
             let mut rng = Rng(req.get("seed").and_then(J::as_u64).unwrap_or(1));
             let count = req.get("count").and_then(J::as_u64).unwrap_or(100);
-            for _ in 0..count {
-                let mut real: VectorMap<usize, u32> = VectorMap::new();
+            for n in 0..count {
+                // every other history starts from with_capacity (0, 1, 2 or more than it will ever hold)
+                let mut real: VectorMap<usize, u32> = if n % 2 == 0 {
+                    VectorMap::new()
+                } else {
+                    VectorMap::with_capacity([0usize, 1, 2, 1000][(n as usize / 2) % 4])
+                };
                 let mut model: BTreeMap<usize, u32> = BTreeMap::new();
                 let mut history: Vec<String> = Vec::new();
                 let hl = 1 + rng.below(len);
